@@ -20,11 +20,21 @@ func main() {
 	verif := flag.String("verif", "/verif", "verif directory (evidence, known findings)")
 	goarch := flag.String("goarch", "", "GOARCH override for loading")
 	list := flag.Bool("list", false, "list properties")
+	dump := flag.String("dump", "", "debug: print facts of pkg:Func or pkg:Type.Method")
 	flag.Parse()
 	if *list {
 		for _, id := range rules.IDs() {
 			fmt.Println(id)
 		}
+		return
+	}
+	if *dump != "" {
+		p, err := core.Load(*repo, *goarch)
+		if err != nil {
+			fmt.Fprintln(os.Stderr, err)
+			os.Exit(2)
+		}
+		rules.Dump(p, *dump)
 		return
 	}
 	seed, _ := strconv.ParseInt(os.Getenv("VERIF_SEED"), 10, 64)
